@@ -186,7 +186,7 @@ fn thread_body(
             }
         }
         let hs = handles.as_mut().unwrap_or(&mut empty);
-        obs.push(run::guarded(op, hs));
+        obs.push(run::guarded(op, hs, &run::new_slots()));
     }
     obs
 }
@@ -227,7 +227,7 @@ pub fn round_scenario(seed: u64, round: u64, threads: usize) -> (Workload, usize
         ops.push(Op::Parse { kind: sk, form, text: shared[0].text.clone(), compile: true, damaged: false });
         ths.push(ops);
     }
-    (Workload { shared, threads: ths, faults: Vec::new() }, n_parses)
+    (Workload { shared, threads: ths, faults: Vec::new(), main_keeps_handles: true }, n_parses)
 }
 
 fn run_round(
@@ -268,7 +268,7 @@ fn run_round(
     for (t, ops) in w.threads.iter().enumerate() {
         for (i, op) in ops.iter().enumerate() {
             match &obs[t][i] {
-                Obs::Done(got) if *got == reference[t][i] => {}
+                Obs::Done(got) if run::obs_matches(op, got, &reference[t][i]) => {}
                 other => {
                     bad += 1;
                     println!(
